@@ -144,17 +144,17 @@ def _get_primary_response(op: IROperation) -> IRResponse | None:
         resp = next((r for r in op.responses if r.status_code == code), None)
         if resp:
             return resp
-    # Then other 2xx
-    for r in op.responses:
+    # Then other 2xx (lowest code first, independent of the order of the spec's `responses` keys)
+    for r in sorted(op.responses, key=lambda r: r.status_code):
         if r.status_code.startswith("2"):
             return r
     # Then default
     resp = next((r for r in op.responses if r.status_code == "default"), None)
     if resp:
         return resp
-    # Finally, the first listed response if any
+    # Finally, the lowest listed response if any (independent of the order of the spec's `responses` keys)
     if op.responses:
-        return op.responses[0]
+        return min(op.responses, key=lambda r: r.status_code)
     return None
 
 
